@@ -679,6 +679,9 @@ func c07WSetup(prm c07WParams) func(c *fw.Ctx, name string) explore.Setup {
 					if prm.Prop == "C16" {
 						b.Close(websocket.StatusNormalClosure, "") // the peer never answers: 5 s virtual
 					}
+					if prm.Prop == "C06" {
+						b.Close(websocket.StatusCode(4001), "bye") // the peer never answers: 5 s virtual
+					}
 					b.CloseNow()
 				}
 				if prm.Sep {
@@ -754,6 +757,13 @@ func c07WSetup(prm c07WParams) func(c *fw.Ctx, name string) explore.Setup {
 				for _, m := range res.Messages {
 					if len(m.Payload) != 300 {
 						violate(c, w, name, P+"/messages-differ/wconc/"+role, fmt.Sprintf("B wrote messages of 300 bytes; its peer receives one of %d bytes: %s", len(m.Payload), describeFrames(connFrames(pb.Out))))
+						return
+					}
+				}
+				if prm.Prop == "C06" {
+					f, ok := firstClose(pb.Out)
+					if !ok || closeCodeOf(f) != 4001 || len(f.Payload) < 2 || string(f.Payload[2:]) != "bye" {
+						violate(c, w, name, "C06/close-frame-not-sent/wconc/"+role, fmt.Sprintf("connection B (fresh, healthy transport) called Close(4001, \"bye\") while connection A was being closed; B's wire: %s", describeFrames(connFrames(pb.Out))))
 						return
 					}
 				}
@@ -982,7 +992,7 @@ func c07RaceScenarios(tier string) []scenario {
 }
 
 func init() {
-	for _, prop := range []string{"C01", "C02", "C05", "C14", "C16", "C18"} {
+	for _, prop := range []string{"C01", "C02", "C05", "C06", "C14", "C16", "C18"} {
 		scs := c07CrossScenarios(prop)
 		fw.Register(fw.Part{Prop: prop, Name: "s.xconn",
 			Units:  func(tier string) []fw.Unit { return scenarioUnits(scs(tier)) },
